@@ -47,7 +47,7 @@ InferVerdict(exp, obs) ==
 
 EvVerdict(t, j) ==
   LET ev == t.evs[j] IN
-  IF ev.op = "cfg" THEN "ok"
+  IF ev.op \in {"cfg", "build"} THEN "ok"
   ELSE IF ev.symcalls > 0 THEN "predicate.ran-in-symbolic-mode"     \* user predicates always run concretely (C09)
   ELSE
   LET q == t.qs[ev.qi]
